@@ -11,7 +11,7 @@ DRIVER = "drv_C18.ml"
 HARNESS = "h_C18.cpp"
 VARIANTS = {"quick": ["O1"], "thorough": ["O1", "asan"]}
 AXIOMS_ALLOWED = runner.REAL_AXIOMS
-REQUIRED_THEOREMS = ["C18_exp_unit", "C18_log_exp", "C18_log_exp_error_bound", "C18_true_bound_exceeds_2e_4", "C18_exp_log",
+REQUIRED_THEOREMS = ["C18_exp_unit", "C18_log_exp", "C18_log_exp_error_bound", "C18_true_bound_exceeds_2e_4", "C18_bound_2e_4_refuted", "C18_exp_log",
                      "C18_double_cover", "C18_log_norm_le_pi", "C18_sum_unit", "C18_diff_sum", "C18_left_convention",
                      "C18_mean_negation_invariant", "C18_mean_permutation_invariant", "C18_mean_unit", "C18_mean_all_equal",
                      "C18_mean_symmetric_centre_is_eigenvector", "C18_mean_symmetric_partial"]
@@ -34,7 +34,7 @@ COUNTS = {"quick": 500, "thorough": 30000}
 PI = math.pi
 CUT = 1e-4
 ZONE = 2e-4 + 1e-9          # run-time bound inside the cut-off zone (the proved bound is 2 asin(1e-4) = 2e-4 + 3.4e-13)
-STATS = {"near_cutoff_skipped": 0, "half_turn_antipodal": 0, "contract_checks": 0, "small_gap_regenerated": 0}
+STATS = {"error_above_2e-4_within_true_bound": 0, "near_cutoff_skipped": 0, "half_turn_antipodal": 0, "contract_checks": 0, "small_gap_regenerated": 0}
 
 
 # ------------------------------------------------------------------ numpy spec helpers (columns)
@@ -203,7 +203,7 @@ def corpus(k0):
     c = caseio.Case(k0, "conv", {"batch": 6, "qf": "axis", "rf": "near_cutoff"})
     h = math.sqrt(0.5)
     c.mat("q", np.stack([I, -I, X, -X, Y, np.array([h, h, 0, 0])], axis=1))
-    c.mat("r", np.stack([[1e-4, 0, 0], [1.0000001e-4, 0, 0], [0, 2e-4, 0], [0, 2.00000001e-4, 0], [0, 0, 0.99e-4], [0, 0, 0]], axis=1))
+    c.mat("r", np.stack([[1e-4, 0, 0], [1.0000001e-4, 0, 0], [0, 2e-4, 0], [0, 2.00000001e-4, 0], [0, 0, 2e-4 + 1e-13], [0, 0, 0]], axis=1))
     out.append(c)
     c = caseio.Case(k0 + 1, "sumdiff", {"batch": 3, "qf": "axis", "rf": "uniform"})
     c.mat("q0", X.reshape(4, 1)).mat("r", np.array([[1.0, 0, 0], [0, 1.0, 0], [0, 0, 1.0]]).T).mat("ql", np.stack([Y, Z, -X], axis=1))
@@ -250,7 +250,9 @@ def cols_to_skip_log(q):
     return np.array([near_cut(float(np.linalg.norm(q[1:, j]))) for j in range(q.shape[1])])
 
 
-def cmp_cols(name, a, b, tol, skip, diffs):
+def cmp_cols(name, a, b, tol, skip, diffs, half_turn_ok=False):
+    """half_turn_ok: rotation vectors of norm pi may differ by sign (r and -r are the same half turn; the code's choice
+    hinges on the sign of a real part that is 0 up to rounding)."""
     if a is None or b is None:
         diffs.append("%s missing" % name); return
     if a.shape != b.shape:
@@ -258,6 +260,10 @@ def cmp_cols(name, a, b, tol, skip, diffs):
     for j in range(a.shape[1]):
         if skip is not None and skip[j]:
             STATS["near_cutoff_skipped"] += 1
+            continue
+        if half_turn_ok and not caseio.close(a[:, j], b[:, j], tol, 0) and abs(np.linalg.norm(a[:, j]) - PI) < 1e-9 \
+                and abs(np.linalg.norm(b[:, j]) - PI) < 1e-9 and caseio.close(a[:, j], -b[:, j], 1e-8, 0):
+            STATS["half_turn_antipodal"] += 1
             continue
         if not caseio.close(a[:, j], b[:, j], tol, 0):
             diffs.append("%s col %d: impl=%s model=%s" % (name, j, a[:, j], b[:, j])); return
@@ -268,11 +274,19 @@ def compare(c, impl, model):
     if c.kind == "conv":
         q, r = c.get("q"), c.get("r")
         sq, sr = cols_to_skip_log(q), cols_to_skip_exp(r)
-        cmp_cols("log_q", impl.get("log_q"), model.get("log_q"), 1e-9, sq, d)
-        cmp_cols("log_negq", impl.get("log_negq"), model.get("log_negq"), 1e-9, sq, d)
-        cmp_cols("exp_log_q", impl.get("exp_log_q"), model.get("exp_log_q"), 1e-9, sq, d)
+        cmp_cols("log_q", impl.get("log_q"), model.get("log_q"), 1e-9, sq, d, half_turn_ok=True)
+        cmp_cols("log_negq", impl.get("log_negq"), model.get("log_negq"), 1e-9, sq, d, half_turn_ok=True)
+        # exp(log q) at a half turn (real part 0 up to rounding): +-q are both admissible
+        ht = np.abs(q[0, :]) < 1e-9
+        e_i, e_m = impl.get("exp_log_q"), model.get("exp_log_q")
+        if e_i is not None and e_m is not None and e_i.shape == e_m.shape:
+            for j in range(e_i.shape[1]):
+                if ht[j] and not sq[j] and not caseio.close(e_i[:, j], e_m[:, j], 1e-9, 0) and caseio.close(e_i[:, j], -e_m[:, j], 1e-9, 0):
+                    STATS["half_turn_antipodal"] += 1
+                    sq = sq.copy(); sq[j] = True
+        cmp_cols("exp_log_q", e_i, e_m, 1e-9, sq, d)
         cmp_cols("exp_r", impl.get("exp_r"), model.get("exp_r"), 1e-9, sr, d)
-        cmp_cols("log_exp_r", impl.get("log_exp_r"), model.get("log_exp_r"), 1e-9, sr, d)
+        cmp_cols("log_exp_r", impl.get("log_exp_r"), model.get("log_exp_r"), 1e-9, sr, d, half_turn_ok=True)
     elif c.kind == "sumdiff":
         r = c.get("r")
         sr = cols_to_skip_exp(r)
@@ -322,6 +336,8 @@ def oracle(c, impl, model):
             err = float(np.linalg.norm(ler[:, j] - r[:, j]))
             if n <= PI - 1e-9:
                 in_zone = n <= CUT * (1 + 1e-12) or math.sin(n / 2) <= CUT * (1 + 1e-12)
+                if in_zone and 2e-4 < err <= ZONE:
+                    STATS["error_above_2e-4_within_true_bound"] += 1      # C18_bound_2e_4_refuted: 2e-4 < |r| <= 2 asin(1e-4)
                 if in_zone and err > ZONE:
                     v.append(("C18:log-exp:cutoff-zone-error", "col %d: |log(exp r) - r| = %.3g > 2e-4 + 1e-9 for |r| = %.17g" % (j, err, n)))
                 if not in_zone and err > 1e-9:
